@@ -260,6 +260,12 @@ func runC16(t *Trace, r *Rng, tier string, _ []string) {
 		}
 		// query-side defaults derived from the mapping
 		for _, path := range []string{"title", "body", "sub.title", "when", "nosuch"} {
+			// with several type mappings the lookup walks a Go map and may answer differently from call to
+			// call when they disagree about the path: only an unambiguous mapping is judged
+			if len(im.TypeMapping) > 1 {
+				t.Add("analyzer-for-path-ambiguous-not-judged", 1)
+				continue
+			}
 			t.Emit("analyzer-for-path", true, "echo "+hs(im.AnalyzerNameForPath(path)), hs(im2.AnalyzerNameForPath(path)))
 		}
 		t.Emit("defaults", true, "echo "+hs(im.DefaultSearchField()), hs(im2.DefaultSearchField()))
